@@ -294,6 +294,16 @@ def limit_mem(gb):
     return f
 
 
+def tmp_env(qdir):
+    """cbmc writes the CNF for an external SAT solver to $TMPDIR and leaves it behind when it is killed (losing
+    back end of a race, time-out): keep those files inside the query's work directory, which is removed with it"""
+    d = os.path.join(qdir, "tmp")
+    os.makedirs(d, exist_ok=True)
+    e = dict(os.environ)
+    e["TMPDIR"] = d
+    return e
+
+
 def solve_attempt(q, backend, cap, memgb):
     """one cbmc process; returns attempt dict; sets q.result if first definitive"""
     if q.decided.is_set():
@@ -304,7 +314,7 @@ def solve_attempt(q, backend, cap, memgb):
     os.makedirs(q.dir, exist_ok=True)
     with open(outp, "w") as fo:
         p = subprocess.Popen(cmd, stdout=fo, stderr=subprocess.STDOUT, cwd=q.dir,
-                             preexec_fn=limit_mem(memgb))
+                             preexec_fn=limit_mem(memgb), env=tmp_env(q.dir))
     with q.lock:
         q.procs.append(p)
     LIVE.add(p.pid)
@@ -480,7 +490,7 @@ def get_counterexample(q, backend, cap, memgb, prop_id=None):
     outp = os.path.join(q.dir, "trace.json")
     with open(outp, "w") as fo:
         p = subprocess.Popen(cmd, stdout=fo, stderr=subprocess.DEVNULL, cwd=q.dir,
-                             preexec_fn=limit_mem(memgb))
+                             preexec_fn=limit_mem(memgb), env=tmp_env(q.dir))
         try:
             p.wait(timeout=cap * 2 + 60)
         except subprocess.TimeoutExpired:
